@@ -1,6 +1,6 @@
 # sourced by bin/setup and bin/check
 export GOFLAGS=-mod=mod GOPROXY=off GOSUMDB=off GOTOOLCHAIN=local CGO_ENABLED=0
-export VERIF_DIR="${VERIF_DIR:-/verif}"
+export VERIF_DIR="${VERIF_DIR:-$(pwd)}"   # bin/setup and bin/check cd to their own tree first
 export VERIF_REPO="${VERIF_REPO:-/repo}"
 GO=go1.26
 BUILD="$VERIF_DIR/.build"
